@@ -29,6 +29,8 @@ try:
 finally:
     subprocess.run(['git', '-C', '/repo', 'apply', '-R', patch], check=True)
     assert subprocess.run(['git', '-C', '/repo', 'status', '--porcelain', '--untracked-files=no'], stdout=subprocess.PIPE, text=True).stdout.strip() == ''
+# the evidence files and replay files written while the seeded change was applied describe a broken tree: put the committed evidence back
+subprocess.run(['git', '-C', ROOT, 'checkout', '--', 'evidence'], stdout=subprocess.DEVNULL, stderr=subprocess.DEVNULL)
 json.dump(res, open(os.path.join(d, 'last_run_%s.json' % tier), 'w'), indent=1)
 for c, v in res.items():
     meta.setdefault('caught_by', {})['%s %s' % (c, tier)] = {'verdict': 'CAUGHT' if v['rc'] == 1 else ('BROKEN' if v['rc'] == 2 else 'missed'), 'wall_s': v['wall'],
